@@ -77,6 +77,9 @@ def gen_definition(rng, kinds=ALL_KINDS, max_states=5, max_events=5, max_trans=3
             r = rng.random()
             if sym_mag and r < 0.2:
                 mag = params[int(rng.integers(0, nP))]
+            elif sym_mag and r < 0.3:       # a magnitude that is itself a sum / product (operator precedence in composed strings)
+                p1, p2 = params[int(rng.integers(0, nP))], params[int(rng.integers(0, nP))]
+                mag = ["%s + 1" % p1, "%s + %s" % (p1, p2), "2*%s" % p1, "1 + %s/2" % p1][int(rng.integers(0, 4))]
             else:
                 mag = str(int(rng.integers(1, 4)))
             trs.append(dict(ty=ty, o=o if ty != "B" else None, d=d if ty != "D" else None, mag=mag))
